@@ -15,10 +15,13 @@ set_option mvcgen.warning false
 /-- the document an imported (or the start) file begins with: `init_with_known_namespaces` -/
 def startDoc (known : List Ns) (knownNodes : List RNode) : Doc := { namespaces := known, knownNodes := knownNodes }
 
+/-- `n` is something `RustNode::try_from_node` returned for some element, in some context and document state -/
+def TfnResult (n : RNode) : Prop := ∃ node ctx fuel d, (runNM (tryFromNode node ctx fuel) d).1 = .ok n
+
 structure FileRel (R : Doc → Doc → Prop) : Prop where
   inv : ∀ d0, DocInv (R d0)
   refl : ∀ known kn, R (startDoc known kn) (startDoc known kn)
-  nodes : ∀ d0 d n, R d0 d → n.inNs = d.current → R d0 { d with nodes := d.nodes ++ [n] }
+  nodes : ∀ d0 d n, R d0 d → n.inNs = d.current → TfnResult n → R d0 { d with nodes := d.nodes ++ [n] }
   messages : ∀ d0 d m, R d0 d → R d0 { d with messages := d.messages ++ [m] }
   ports : ∀ d0 d m, R d0 d → R d0 { d with ports := d.ports ++ [m] }
   bindings : ∀ d0 d m, R d0 d → R d0 { d with bindings := d.bindings ++ [m] }
@@ -56,7 +59,7 @@ macro "fk " hR:ident d0:term : tactic => `(tactic| (
   (try simp only [SPred.down_pure, PostCond.mayThrow] at *)
   (try intros)
   (try show $d0 _)
-  repeat (first | assumption | trivial | exact True.intro | exact ExceptConds.entails.rfl | apply FileRel.services $hR | apply FileRel.bindings $hR | apply FileRel.ports $hR | apply FileRel.messages $hR | apply FileRel.nodes $hR | apply FileRel.imported $hR | apply Keeps.run (P := $d0) (keeps_service _ _) | apply Keeps.run (P := $d0) (keeps_binding _ _) | apply Keeps.run (P := $d0) (keeps_port _) | apply Keeps.run (P := $d0) (keeps_message (FileRel.inv $hR _) _ _ _) | apply Keeps.run (P := $d0) ((block_keeps (FileRel.inv $hR _) _).tfn _ _) | (apply tfn_run_inNs; assumption))))
+  repeat (first | assumption | trivial | exact True.intro | exact ExceptConds.entails.rfl | apply FileRel.services $hR | apply FileRel.bindings $hR | apply FileRel.ports $hR | apply FileRel.messages $hR | apply FileRel.nodes $hR | apply FileRel.imported $hR | apply Keeps.run (P := $d0) (keeps_service _ _) | apply Keeps.run (P := $d0) (keeps_binding _ _) | apply Keeps.run (P := $d0) (keeps_port _) | apply Keeps.run (P := $d0) (keeps_message (FileRel.inv $hR _) _ _ _) | apply Keeps.run (P := $d0) ((block_keeps (FileRel.inv $hR _) _).tfn _ _) | (apply tfn_run_inNs; assumption) | (show TfnResult _; exact ⟨_, _, _, _, by assumption⟩))))
 
 structure FileKeeps (R : Doc → Doc → Prop) (files : String → Option XFile) (fuel : Nat) : Prop where
   int : ∀ name known kn, ⦃fun st => ⌜name ∉ st.processed⌝⦄ readXmlInternal files name known kn fuel ⦃⇓? d => ⌜R (startDoc known kn) d⌝⦄
